@@ -355,6 +355,41 @@ def _worker(job):
                     C._rec("construct_profile", bad is None, (segs, read, md), mp.gene_profile)
                     if bad:
                         res["viol"].append(("NonOverlapping.construct_profile:pipeline-comparator", repr((segs, read, md)), "%s; gene profile %s read profile %s" % (bad, mp.gene_profile, mp.read_profile)))
+    elif kind == "options":
+        # the profile constructors as the PIPELINE builds them: parameters derived by the tree's own option handling from a command line with
+        # an explicit --delta (0 is a legal value) or a preset; a read intron d bp away from the known one is marked present iff d <= delta
+        d, home = payload
+        from vlib import repo_import as ri
+        base = ["-o", os.path.join(d, "opt_out"), "-d", "nanopore", "--bam", os.path.join(d, "r.bam"), "-r", os.path.join(d, "g.fa"), "-g", os.path.join(d, "a.gtf"),
+                "--complete_genedb", "-t", "1", "-p", "SMP", "--force"]
+        preset_delta = {"exact": 0, "precise": 4, "default": 6, "loose": 12}
+        for preset in ("exact", "precise", "default", "loose"):
+            for explicit in (None, 0, 1, 3, 7):
+                argv = base + ["--matching_strategy", preset] + (["--delta", str(explicit)] if explicit is not None else [])
+                try:
+                    import contextlib
+                    import logging
+                    logging.disable(logging.CRITICAL)
+                    with open(os.devnull, "w") as dn, contextlib.redirect_stdout(dn), contextlib.redirect_stderr(dn):
+                        args = ri.fresh_args(argv, home)
+                    logging.disable(logging.NOTSET)
+                except BaseException as e:
+                    res["viol"].append(("options:exception", repr(argv[-4:]), repr(e)[:200]))
+                    continue
+                want = preset_delta[preset] if explicit is None else explicit
+                model = gi.TranscriptModel("c", "+", "t", "g", [(100, 200), (301, 400), (501, 600)], gi.TranscriptModelType.known)
+                g = gi.GeneInfo.from_model(model, args.delta)
+                cpc = lrp.CombinedProfileConstructor(g, args)
+                for shift in range(0, 15):
+                    res["cases"] += 1
+                    res["option_profile_cases"] = res.get("option_profile_cases", 0) + 1
+                    blocks = [(100, 200 + shift), (301, 400), (501, 600)]       # first read intron (201+shift, 300): one end moved by `shift`
+                    mp = cpc.intron_profile_constructor.construct_intron_profile(blocks)
+                    present = mp.gene_profile[0] == 1
+                    if present != (shift <= want):
+                        res["viol"].append(("options:profile-ignores-requested-delta", "preset=%s --delta %s shift=%d" % (preset, explicit, shift),
+                                            "intron marked %s, requested tolerance %d (args.delta=%r)" % (mp.gene_profile[0], want, args.delta)))
+                        break
     elif kind == "random":
         seed, count = payload
         rng = random.Random(seed)
@@ -430,6 +465,13 @@ def run(chk, scratch):
         jobs.append(("readprofiles", (n_prof, i, 32)))
     for i in range(16):
         jobs.append(("splitprofiles", (n_prof, i, 16)))
+    # a tiny data set for the option-handling job (the parser checks that its input files exist)
+    from vlib import world as _world, pipeline as _pipeline
+    od = os.path.join(scratch, "opt")
+    ow = _world.standard_world(chk.seed, n_chroms=1, genes_per_chrom=1, hidden=False)
+    _world.add_standard_reads(ow, per_transcript=1, jitter=0)
+    _pipeline.write_world(ow, od)
+    jobs.append(("options", (od, os.path.join(od, "home"))))
     nrand = 100000 if thorough else 4000
     for i in range(16):
         jobs.append(("random", (chk.seed * 101 + i, nrand // 16)))
@@ -442,6 +484,7 @@ def run(chk, scratch):
             nontriv += res["nontrivial"]
             chk.count("model_gene_isoform_profiles_checked", res.get("model_gene_profiles", 0))
             chk.count("split_profiles_with_pipeline_comparator", res.get("split_profile_cases", 0))
+            chk.count("profiles_built_from_command_line_options", res.get("option_profile_cases", 0))
             for k, v in res["counts"].items():
                 counts[k] = counts.get(k, 0) + v
             for k, v in res["shapes"].items():
@@ -497,6 +540,7 @@ def run(chk, scratch):
               "split_exons", "sum_intervals_to_point", "FeatureProfiles.set_profiles", "construct_intron_profile",
               "construct_profile"):
         chk.inconclusive_if(counts.get(f, 0) == 0, "contract on %s never evaluated" % f)
+    chk.inconclusive_if(chk.extra.get("profiles_built_from_command_line_options", 0) == 0, "no profile built from command-line derived parameters")
     chk.inconclusive_if(chk.extra.get("split_profiles_with_pipeline_comparator", 0) == 0, "split-exon profiles with the pipeline's comparator never built")
     chk.inconclusive_if(chk.extra.get("model_gene_isoform_profiles_checked", 0) == 0, "no isoform profile of a gene built from transcript models checked")
     chk.min_nontrivial = 1000
